@@ -29,6 +29,18 @@ SPECS = {
         mutants=dict(lgt="Refines", noaup="AupOK", reinitl="Histo"),
         mutant_consts=dict(M=3, NItems=2, G=1),
         actions=["Sketch", "Reinit"]),
+    "ProbMinHash": dict(
+        quick=[dict(M=2, NE=2, L=3, G=2, Variant='"3"'), dict(M=2, NE=2, L=3, G=2, Variant='"3a"'),
+               dict(M=3, NE=2, L=3, G=1, Variant='"2"')],
+        thorough=[dict(M=2, NE=2, L=3, G=2, Variant='"3"'), dict(M=2, NE=2, L=3, G=2, Variant='"3a"'),
+                  dict(M=3, NE=2, L=3, G=2, Variant='"2"'), dict(M=2, NE=3, L=3, G=1, Variant='"3"'),
+                  dict(M=2, NE=3, L=3, G=1, Variant='"3a"'), dict(M=3, NE=2, L=4, G=1, Variant='"3"'),
+                  dict(M=2, NE=3, L=2, G=2, Variant='"2"')],
+        invariants=["Refines", "Members", "ResetIsInit"], properties=[], constraint=None,
+        mutants=dict(lb="Refines", keep="Refines", brk="Refines", resetsig="Refines"),
+        mutant_consts_by=dict(lb=dict(M=2, NE=2, L=3, G=2, Variant='"3"'), keep=dict(M=2, NE=2, L=3, G=2, Variant='"3a"'),
+                              brk=dict(M=2, NE=2, L=2, G=2, Variant='"2"'), resetsig=dict(M=2, NE=2, L=2, G=2, Variant='"2"')),
+        actions=[]),
 }
 
 _done = {}
@@ -55,7 +67,7 @@ def check_module(chk, module, quick, with_mutants=True):
     refuted = []
     if with_mutants:
         for mut, inv in sp["mutants"].items():
-            c = dict(sp["mutant_consts"])
+            c = dict(sp["mutant_consts_by"][mut]) if "mutant_consts_by" in sp else dict(sp["mutant_consts"])
             c["Mut"] = '"%s"' % mut
             cfg = write_cfg(os.path.join(chk.wd, "%s_mut_%s.cfg" % (module, mut)), constants=c, invariants=sp["invariants"],
                             properties=sp["properties"], constraints=[sp["constraint"]] if sp["constraint"] else ())
